@@ -416,18 +416,29 @@ func c03Core(c *Ctx) bool {
 	}
 	if fn := c.fn(compilerPkg, "Optimizer.OptimizeStatements"); fn != nil {
 		// appends to the invariant list only under isExprInvariant true
-		var invs []ssa.Value
+		// the hoisting decision may sit in a helper of the while arm (splitLoopInvariants): the arm's function and the
+		// Optimizer methods it calls are searched; constructs stay named after OptimizeStatements
+		hoistFns := []*ssa.Function{fn}
 		eachCall(fn, func(call ssa.CallInstruction) {
-			if callName(call) == compilerPath+".isExprInvariant" {
-				invs = append(invs, call.(ssa.Value))
+			if sf := staticFn(call); sf != nil && sf != fn && sf.Pkg == fn.Pkg && sf.Signature.Recv() != nil && len(sf.Blocks) > 0 {
+				hoistFns = append(hoistFns, sf)
 			}
 		})
+		var invs []ssa.Value
+		for _, hf := range hoistFns {
+			eachCall(hf, func(call ssa.CallInstruction) {
+				if callName(call) == compilerPath+".isExprInvariant" {
+					invs = append(invs, call.(ssa.Value))
+				}
+			})
+		}
 		c.ob("C03-R3", compilerPkg+".Optimizer.OptimizeStatements#hoisting-consults-isExprInvariant", fn.Pos(), len(invs) > 0 || !strings.Contains(nodeText(c, opt), "invariant"), "statements are hoisted without consulting isExprInvariant")
 		// what is moved out of the loop is a computation into a fresh temporary, never the program's own
 		// declaration/assignment: on the isExprInvariant-true side no existing statement node (a type-asserted
 		// element of the loop body) is re-emitted as a statement
 		for _, inv := range invs {
-			for _, b := range fn.Blocks {
+			hf := inv.(ssa.Instruction).Parent()
+			for _, b := range hf.Blocks {
 				iff := ifOf(b)
 				if iff == nil || !derivesFrom(iff.Cond, func(v ssa.Value) bool { return v == inv }) {
 					continue
@@ -436,7 +447,7 @@ func c03Core(c *Ctx) bool {
 				region := b.Succs[0]
 				moved := false
 				var at token.Pos
-				for _, rb := range fn.Blocks {
+				for _, rb := range hf.Blocks {
 					if rb != region && !region.Dominates(rb) {
 						continue
 					}
